@@ -391,8 +391,16 @@ class Run:
         return out
 
     def e_NamedExpr(self, node, st, maybe):
-        raise AnalysisError('unsupported expression := at line %d'
-                            % node.lineno)
+        out = []
+        for s, v, sig in self.eval(node.value, st, maybe):
+            if sig is not None:
+                out.append((s, None, sig))
+                continue
+            s = s.fork() if s is st else s
+            self.bind(node.target, v, s, node)
+            out.append((s, copy.deepcopy(s.env.get(node.target.id, v)),
+                        None))
+        return out
 
     def e_Dict(self, node, st, maybe):
         cur = [(st, [], None)]
@@ -1181,6 +1189,19 @@ class Run:
                 name = f.id
             out.append((s2, Signal('raise', v,
                                    types={name} if name else None)))
+        return out
+
+    def s_Assert(self, s, st):
+        out = []
+        for s2, truth, sig in self.branch(s.test, st):
+            if sig is not None:
+                out.append((s2, sig))
+            elif truth:
+                out.append((s2, None))
+            else:
+                out.append((s2, Signal('raise', ast.Call(
+                    func=ast.Name(id='AssertionError', ctx=ast.Load()),
+                    args=[], keywords=[]), types={'AssertionError'})))
         return out
 
     def s_Break(self, s, st):
